@@ -40,6 +40,11 @@ type MLCase struct {
 	Known        []string    `json:"known,omitempty"`
 	RealIDs      []string    `json:"real_ids,omitempty"`
 	RealPanicked bool        `json:"real_panicked"`
+	// recents: verifySeal's loop through CheckHeaderAndUpdateState
+	Recents    [][2]string `json:"recents,omitempty"` // (height as 8 bytes hex, validator hex): the store's recent-signer entries
+	Limit      uint64      `json:"limit,omitempty"`
+	Pattern    int         `json:"pattern,omitempty"`
+	RealRecent int         `json:"real_recent"` // 1 ErrRecentlySigned, 0 accepted, 3 another error, 2 panic
 	// the real function called repeatedly on the SAME input gave different results (a direct witness of order dependence)
 	Unstable string `json:"unstable,omitempty"`
 }
@@ -64,6 +69,16 @@ func maploops(seed uint64, n int, out string) {
 	o := hlib.NewOut(out)
 	defer o.Close()
 	root := hlib.NewRand(seed)
+	a := newApp()
+	// ---- BSC verifySeal: the recently-signed loop. Directed shapes first (corpus: they run on every run), then random --
+	nrec := 24 + n/10
+	for i := 0; i < nrec; i++ {
+		pattern := i % 6
+		if i >= 24 {
+			pattern = 6
+		}
+		o.Emit(recentsCase(root.Fork(uint64(1_000_000+i)), a, pattern))
+	}
 	// ---- BSC snapshot: validators() and inturn() -------------------------------------------------------
 	for i := 0; i < n; i++ {
 		r := root.Fork(uint64(i))
@@ -132,7 +147,6 @@ func maploops(seed uint64, n int, out string) {
 		o.Emit(c)
 	}
 	// ---- app.go: module account address maps (several calls = several iteration orders) ----------------------
-	a := newApp()
 	for i := 0; i < 8; i++ {
 		c := MLCase{Kind: "macc"}
 		perms := app.GetMaccPerms()
